@@ -75,7 +75,7 @@ int fault_decision(IoKind kind, const std::string &rel, bool *shortw) {
   *shortw = false;
   if (!(g_plan.kind_mask & (1u << kind))) return 0;
   if (!g_plan.name_contains.empty() && rel.find(g_plan.name_contains) == std::string::npos) return 0;
-  if (g_plan.at < 0) { g_cnt.eligible++; return 0; }
+  if (g_plan.at < 0) { g_cnt.eligible++; g_cnt.eligible_class.push_back(std::string(io_kind_name(kind)) + "." + io_file_class(rel)); return 0; }
   int64_t idx = (int64_t)g_cnt.eligible++;
   bool hit = g_plan.persistent ? (idx >= g_plan.at) : (idx == g_plan.at);
   if (!hit) return 0;
@@ -144,6 +144,7 @@ void io_set_fault(const FaultPlan &p) {
   Guard g;
   g_plan = p;
   g_cnt.eligible = 0;
+  g_cnt.eligible_class.clear();
   g_cnt.fired_at = -1;
   g_cnt.injected = 0;
   g_cnt.fired_desc.clear();
